@@ -24,7 +24,10 @@ let ctor_args r ndims =
   (w.[0], dims)
 let unres = function Ok v -> v | Exit -> stop "EXIT" | OOB -> stop "OOB" | Fuel -> stop "FUEL"
 
-let one_d r ~trace =
+(* ---- one table: the object the model's constructor builds from the raw table and the unit arguments, and its step function *)
+type tab1 = { t_obj : float object1; t_stp : float state -> float op -> float state * float out; t_kind : float state -> float -> int }
+
+let read_tab1 r ~trace =
   let (ck, dims) = ctor_args r 2 in
   let xs0 = list r in
   let ys0 = list r in
@@ -40,62 +43,111 @@ let one_d r ~trace =
     if trace then (fun st o -> step fops n xv (fun _ _ -> 0.0) (fun _ _ _ -> 0.0) (fun _ _ _ _ _ -> 0.0)
                       (fun _ _ _ _ _ _ _ _ -> 0.0) (fun _ _ -> 0.0) st o)   (* values are not printed in trace mode *)
     else (let obj = build fops (Array.to_list xs) ys in fun st o -> step_steffen fops obj n xv st o) in
-  let kind st x = iz (locate_kind fops n xv st x) in
-  let nops = integer r in
-  let st = ref o.o_state in
-  let stack = ref [] in
-  let bad = function
-    | OExit -> stop "EXIT" | OOOB -> stop "OOB" | OFuel -> stop "FUEL" | _ -> stop "MODELERR unexpected_output" in
+  { t_obj = o; t_stp = stp; t_kind = (fun st x -> iz (locate_kind fops n xv st x)) }
+
+let bad1 = function
+  | OExit -> stop "EXIT" | OOOB -> stop "OOB" | OFuel -> stop "FUEL" | _ -> stop "MODELERR unexpected_output"
+
+(* one member call `w` on the current object: [tab ()] its table, [getst ()] its members, [apply o] runs the operation on it
+   (and stores the successor).  Returns false when `w` is not a member call. *)
+let query1 r ~trace (tab : unit -> tab1) (getst : unit -> float state) (apply : float op -> float out) w =
+  let stp st o = (tab ()).t_stp st o in
   (* the Locate calls a query makes, in order (only used for the trace) *)
   let trace_locates xs_ =
     if trace then begin
-      let s = ref !st in
-      List.iter (fun x -> put_i (kind !s x);
+      let s = ref (getst ()) in
+      List.iter (fun x -> put_i ((tab ()).t_kind !s x);
                   let (s', o) = stp !s (OpLocate x) in (match o with OIndex _ -> s := s' | _ -> ())) xs_
     end in
   let value ?(bases = []) o = (* the op on the used object, on a fresh one with the same prefactor, and the ops [bases] on fresh objects with prefactor 1 *)
-    let (s, out) = stp !st o in
-    let (_, outf) = stp (fresh !st.prefactor) o in
+    let pf = (getst ()).prefactor in
+    let out = apply o in
+    let (_, outf) = stp (fresh pf) o in
     (match out, outf with
      | OValue (_, v), OValue (_, vf) -> if not trace then (put_f v; put_f vf)
-     | OValue (_, _), x -> bad x
-     | x, _ -> bad x);
+     | OValue (_, _), x -> bad1 x
+     | x, _ -> bad1 x);
     if not trace then
-      List.iter (fun ob -> match snd (stp (fresh 1.0) ob) with OValue (_, vb) -> put_f vb | x -> bad x) bases;
-    st := s in
+      List.iter (fun ob -> match snd (stp (fresh 1.0) ob) with OValue (_, vb) -> put_f vb | x -> bad1 x) bases in
+  match w with
+  | "L" -> let x = num r in
+      trace_locates [x];
+      let pf = (getst ()).prefactor in
+      let out = apply (OpLocate x) in
+      let (_, outf) = stp (fresh pf) (OpLocate x) in
+      (match out, outf with
+       | OIndex j, OIndex jf -> if not trace then (put_i (iz j); put_i (iz jf))
+       | OIndex _, x -> bad1 x
+       | x, _ -> bad1 x); true
+  | "I" | "O" -> let x = num r in trace_locates [x]; value ~bases:[OpInterpolate x] (OpInterpolate x); true   (* operator()(x) { return Interpolate(x); } *)
+  | "D" -> let x = num r in let k = integer r in
+      trace_locates (if k = 0 then [x; x] else [x]); value ~bases:[OpDerivative (x, zi k)] (OpDerivative (x, zi k)); true
+  | "d" -> let x = num r in      (* Derivative(x): default argument deriv = 1 *)
+      trace_locates [x]; value ~bases:[OpDerivative (x, zi 1)] (OpDerivative (x, zi 1)); true
+  | "G" -> let a = num r in let b = num r in
+      trace_locates (if a > b then [b; a] else [a; b]); value ~bases:[OpIntegrate (a, b)] (OpIntegrate (a, b)); true
+  | "m" -> let a = num r in let b = num r in
+      if not (b < a) then trace_locates [a; b; a; b]; value ~bases:[OpLocalMin (a, b); OpLocalMax (a, b)] (OpLocalMin (a, b)); true
+  | "M" -> let a = num r in let b = num r in
+      if not (b < a) then trace_locates [a; b; a; b]; value ~bases:[OpLocalMin (a, b); OpLocalMax (a, b)] (OpLocalMax (a, b)); true
+  | "gm" -> value ~bases:[OpGlobalMin; OpGlobalMax] OpGlobalMin; true
+  | "gM" -> value ~bases:[OpGlobalMin; OpGlobalMax] OpGlobalMax; true
+  | "Q" -> let o = (tab ()).t_obj in if not trace then (put_f (fst o.o_dom); put_f (snd o.o_dom)); true     (* the public member domain *)
+  | "P" -> let f = num r in ignore (apply (OpSetPrefactor f)); if not trace then put_f (getst ()).prefactor; true
+  | "U" -> let f = num r in ignore (apply (OpMultiply f)); if not trace then put_f (getst ()).prefactor; true
+  | _ -> false
+
+let one_d r ~trace =
+  let t = read_tab1 r ~trace in
+  let nops = integer r in
+  let st = ref t.t_obj.o_state in
+  let stack = ref [] in
+  let apply o = let (s, out) = t.t_stp !st o in st := s; out in
   for _ = 1 to nops do
-    match word r with
-    | "L" -> let x = num r in
-        trace_locates [x];
-        let (s, out) = stp !st (OpLocate x) in
-        let (_, outf) = stp (fresh !st.prefactor) (OpLocate x) in
-        (match out, outf with
-         | OIndex j, OIndex jf -> if not trace then (put_i (iz j); put_i (iz jf))
-         | OIndex _, x -> bad x
-         | x, _ -> bad x);
-        st := s
-    | "I" | "O" -> let x = num r in trace_locates [x]; value ~bases:[OpInterpolate x] (OpInterpolate x)   (* operator()(x) { return Interpolate(x); } *)
-    | "D" -> let x = num r in let k = integer r in
-        trace_locates (if k = 0 then [x; x] else [x]); value ~bases:[OpDerivative (x, zi k)] (OpDerivative (x, zi k))
-    | "d" -> let x = num r in      (* Derivative(x): default argument deriv = 1 *)
-        trace_locates [x]; value ~bases:[OpDerivative (x, zi 1)] (OpDerivative (x, zi 1))
-    | "G" -> let a = num r in let b = num r in
-        trace_locates (if a > b then [b; a] else [a; b]); value ~bases:[OpIntegrate (a, b)] (OpIntegrate (a, b))
-    | "m" -> let a = num r in let b = num r in
-        if not (b < a) then trace_locates [a; b; a; b]; value ~bases:[OpLocalMin (a, b); OpLocalMax (a, b)] (OpLocalMin (a, b))
-    | "M" -> let a = num r in let b = num r in
-        if not (b < a) then trace_locates [a; b; a; b]; value ~bases:[OpLocalMin (a, b); OpLocalMax (a, b)] (OpLocalMax (a, b))
-    | "gm" -> value ~bases:[OpGlobalMin; OpGlobalMax] OpGlobalMin
-    | "gM" -> value ~bases:[OpGlobalMin; OpGlobalMax] OpGlobalMax
-    | "Q" -> if not trace then (put_f (fst o.o_dom); put_f (snd o.o_dom))     (* the public member domain *)
-    | "P" -> let f = num r in st := fst (stp !st (OpSetPrefactor f)); if not trace then put_f !st.prefactor
-    | "U" -> let f = num r in st := fst (stp !st (OpMultiply f)); if not trace then put_f !st.prefactor
-    | "C" | "A" -> stack := !st :: !stack; st := fst (stp !st OpCopy)
-    | "R" -> (match !stack with s :: rest -> st := s; stack := rest | [] -> ())
-    | o -> stop ("MODELERR unknown_op_" ^ o)
+    let w = word r in
+    if not (query1 r ~trace (fun () -> t) (fun () -> !st) apply w) then
+      match w with
+      | "C" | "A" -> stack := !st :: !stack; ignore (apply OpCopy)
+      | "R" -> (match !stack with s :: rest -> st := s; stack := rest | [] -> ())
+      | o -> stop ("MODELERR unknown_op_" ^ o)
   done
 
-let two_d r =
+(* ---- sessions: several tables, objects in numbered slots (the model's [sstep]); slot 0 starts as an object of table 0 *)
+let ni = nat_of_int
+let session (type st) (type op) (type out) r (ntab : int) (tstep : int -> st -> op -> st * out) (tinit : int -> st) (onone : out)
+    (query : (unit -> int) -> (unit -> st) -> (op -> out) -> string -> bool) =
+  (* tinit t: the members after construction, read off the object the model's constructor returns for table t (the same for every t) *)
+  let stepf = sstep (fun t s o -> tstep (int_of_nat t) s o) in
+  let store = ref [] in
+  let life o = store := fst (stepf (tinit 0) onone !store o) in
+  let construct k t = if t < 0 || t >= ntab then stop "MODELERR table"; store := fst (sstep (fun t s o -> tstep (int_of_nat t) s o) (tinit t) onone !store (SConstruct (ni k, ni t))) in
+  construct 0 0;
+  let cur = ref 0 in
+  let slot k = match get_slot (ni k) !store with Some ob -> ob | None -> stop "MODELERR empty_slot" in
+  let nops = integer r in
+  for _ = 1 to nops do
+    let w = word r in
+    let apply o = ignore (slot !cur); let (s, out) = stepf (tinit 0) onone !store (SQuery (ni !cur, o)) in store := s; out in
+    if not (query (fun () -> int_of_nat (slot !cur).so_tab) (fun () -> (slot !cur).so_st) apply w) then
+      match w with
+      | "S" -> let k = integer r in ignore (slot k); cur := k
+      | "N" | "V" | "W" -> let k = integer r in let t = integer r in construct k t   (* new object / assignment from a temporary / from a third object of table t *)
+      | "K" | "E" -> let a = integer r in let b = integer r in ignore (slot a); life (SCopy (ni a, ni b))
+      | "Z" -> let a = integer r in let b = integer r in ignore (slot a); ignore (slot b); life (SSwap (ni a, ni b))
+      | "X" -> let k = integer r in life (SDestroy (ni k))
+      | o -> stop ("MODELERR unknown_op_" ^ o)
+  done
+
+let session_1d r =
+  let ntab = integer r in
+  let tabs = Array.init ntab (fun _ -> read_tab1 r ~trace:false) in
+  session r ntab (fun t s o -> tabs.(t).t_stp s o) (fun t -> tabs.(t).t_obj.o_state) ONone
+    (fun tab getst apply w -> query1 r ~trace:false (fun () -> tabs.(tab ())) getst apply w)
+
+(* ---- Interpolation_2D *)
+type tab2 = { t2_obj : float object2; t2_stp : float state2 -> float op2 -> float state2 * float out2 }
+
+let read_tab2 r =
   let (ck, dims) = ctor_args r 3 in
   let xs0 = list r in
   let ys0 = list r in
@@ -110,32 +162,50 @@ let two_d r =
   let nx = Array.length xs and ny = Array.length ys in
   let f = Array.of_list (List.map Array.of_list o.o2_f) in
   let fv zi_ zj = let i = iz zi_ and j = iz zj in if i >= 0 && i < nx && j >= 0 && j < ny then f.(i).(j) else Float.nan in
-  let stp st o = step2 fops (zi nx) (mk_xv xs) (zi ny) (mk_xv ys) fv st o in
+  { t2_obj = o; t2_stp = (fun st o -> step2 fops (zi nx) (mk_xv xs) (zi ny) (mk_xv ys) fv st o) }
+
+let bad2 = function
+  | O2Exit -> stop "EXIT" | O2OOB -> stop "OOB" | O2Fuel -> stop "FUEL" | _ -> stop "MODELERR unexpected_output"
+
+let query2 r (tab : unit -> tab2) (getst : unit -> float state2) (apply : float op2 -> float out2) w =
+  let stp st o = (tab ()).t2_stp st o in
+  match w with
+  | "I" | "O" -> let x = num r in let y = num r in
+      let pf = (getst ()).pf2 in
+      let out = apply (Op2Interpolate (x, y)) in
+      let (_, outf) = stp { sx = init fops; sy = init fops; pf2 = pf } (Op2Interpolate (x, y)) in
+      let (_, outb) = stp (init2 fops) (Op2Interpolate (x, y)) in
+      (match out, outf, outb with
+       | O2Value (_, _, v), O2Value (_, _, vf), O2Value (_, _, vb) -> put_f v; put_f vf; put_f vb
+       | O2Value (_, _, _), O2Value (_, _, _), x -> bad2 x
+       | O2Value (_, _, _), x, _ -> bad2 x
+       | x, _, _ -> bad2 x); true
+  | "gm" | "gM" -> put_w "_"; put_w "_"; put_w "_"; put_w "_"; true
+  | "Q" -> let ((a, b), (c, d)) = (tab ()).t2_obj.o2_dom in put_f a; put_f b; put_f c; put_f d; true
+  | "P" -> let f = num r in ignore (apply (Op2SetPrefactor f)); put_f (getst ()).pf2; true
+  | "U" -> let f = num r in ignore (apply (Op2Multiply f)); put_f (getst ()).pf2; true
+  | _ -> false
+
+let two_d r =
+  let t = read_tab2 r in
   let nops = integer r in
-  let st = ref o.o2_state in
+  let st = ref t.t2_obj.o2_state in
   let stack = ref [] in
-  let bad = function
-    | O2Exit -> stop "EXIT" | O2OOB -> stop "OOB" | O2Fuel -> stop "FUEL" | _ -> stop "MODELERR unexpected_output" in
+  let apply o = let (s, out) = t.t2_stp !st o in st := s; out in
   for _ = 1 to nops do
-    match word r with
-    | "I" | "O" -> let x = num r in let y = num r in
-        let (s, out) = stp !st (Op2Interpolate (x, y)) in
-        let (_, outf) = stp { sx = init fops; sy = init fops; pf2 = !st.pf2 } (Op2Interpolate (x, y)) in
-        let (_, outb) = stp (init2 fops) (Op2Interpolate (x, y)) in
-        (match out, outf, outb with
-         | O2Value (_, _, v), O2Value (_, _, vf), O2Value (_, _, vb) -> put_f v; put_f vf; put_f vb
-         | O2Value (_, _, _), O2Value (_, _, _), x -> bad x
-         | O2Value (_, _, _), x, _ -> bad x
-         | x, _, _ -> bad x);
-        st := s
-    | "gm" | "gM" -> put_w "_"; put_w "_"; put_w "_"; put_w "_"
-    | "Q" -> let ((a, b), (c, d)) = o.o2_dom in put_f a; put_f b; put_f c; put_f d
-    | "P" -> let f = num r in st := fst (stp !st (Op2SetPrefactor f)); put_f !st.pf2
-    | "U" -> let f = num r in st := fst (stp !st (Op2Multiply f)); put_f !st.pf2
-    | "C" | "A" -> stack := !st :: !stack; st := fst (stp !st Op2Copy)
-    | "R" -> (match !stack with s :: rest -> st := s; stack := rest | [] -> ())
-    | o -> stop ("MODELERR unknown_op_" ^ o)
+    let w = word r in
+    if not (query2 r (fun () -> t) (fun () -> !st) apply w) then
+      match w with
+      | "C" | "A" -> stack := !st :: !stack; ignore (apply Op2Copy)
+      | "R" -> (match !stack with s :: rest -> st := s; stack := rest | [] -> ())
+      | o -> stop ("MODELERR unknown_op_" ^ o)
   done
+
+let session_2d r =
+  let ntab = integer r in
+  let tabs = Array.init ntab (fun _ -> read_tab2 r) in
+  session r ntab (fun t s o -> tabs.(t).t2_stp s o) (fun t -> tabs.(t).t2_obj.o2_state) O2None
+    (fun tab getst apply w -> query2 r (fun () -> tabs.(tab ())) getst apply w)
 
 let handler r =
   try
@@ -143,6 +213,8 @@ let handler r =
     | "h1" -> one_d r ~trace:false
     | "t1" -> one_d r ~trace:true      (* model-side trace: which search every internal Locate call runs *)
     | "h2" -> two_d r
+    | "s1" -> session_1d r             (* several objects / tables in one process *)
+    | "s2" -> session_2d r
     | o -> put_w ("MODELERR unknown_case_" ^ o)
   with Stop s -> Buffer.clear buf; first := true; put_w s
 
